@@ -12,7 +12,7 @@
 #include "stir/recon_buildblock/ForwardProjectorByBinUsingProjMatrixByBin.h"
 #include "stir/recon_buildblock/BackProjectorByBinUsingProjMatrixByBin.h"
 #include "stir/recon_buildblock/ProjectorByBinPairUsingProjMatrixByBin.h"
-#include "stir/num_threads.h"
+#include "num_threads_once.h"
 #include <cmath>
 #include <cstring>
 #include <omp.h>
@@ -433,6 +433,7 @@ Outcome scen_objfn(const sim::Plan& p, int threads, const sc::Params& sp);
 Outcome scen_norm(const sim::Plan& p, int threads, const sc::Params& sp);
 Outcome scen_scatter(const sim::Plan& p, int threads, const sc::Params& sp);
 Outcome scen_array(const sim::Plan& p, int threads, const sc::Params& sp);
+Outcome scen_lm(const sim::Plan& p, int threads, const sc::Params& sp);
 
 inline void
 compare(const std::string& scen, const Outcome& ref, const Outcome& par, bool exact, int threads)
@@ -527,6 +528,8 @@ run_scenario(const sim::Plan& p, const std::string& scen, sim::Result& res)
       fn = scen_array;
       exact = true;
     }
+  else if (scen == "lm")
+    fn = scen_lm;
   else
     return;
   const int threads = (int)std::max<long>(2, p.c("threads", 4));
